@@ -37,7 +37,8 @@ Spec == Init /\ [][Next]_vars
 RacesP(e) == { f \in pred[e] : /\ X.actor[f] # X.actor[e]
                                /\ ~ \E g \in pred[e] : f \in pred[g] }
 
-Say(kind, ev, expected, got) == PrintT(<<"MISMATCH", X.id, kind, ev, expected, got>>)
+\* one line per disagreement (JSON: long values printed as TLA+ values would be wrapped over several lines)
+Say(kind, ev, expected, got) == PrintT(ToJson([mismatch |-> X.id, kind |-> kind, ev |-> ev, expected |-> expected, got |-> got]))
 
 \* after push number k: what the implementation answered for the newest event
 PushOK ==
